@@ -222,10 +222,16 @@ def main(tier, seed, args):
             name = 'values applied to pay requests[xpay=%s]' % xpay
             ex2 = run_explorer(rep, c, h, name, max_states=100000)
             c16.report(rep, name, ex2, xpay, pid=PID)
+    if not rep.violations:
+        from .c04 import height_use_stage
+        height_use_stage(rep, PID, c)
     finish(rep, [c], './check C19 --tier ' + tier)
 
 def replay_cex(path):
     cex = json.load(open(path))
+    if 'script' in cex and 'steps' in cex.get('script', {}) and cex.get('replay_kind') != 'provider':
+        from . import scen_common
+        return scen_common.replay_cex(PID, path)
     if cex.get('replay_kind') == 'provider':
         from . import c16
         return c16.replay_cex(path, PID)
